@@ -1,7 +1,7 @@
 """Configuration of ./check for C17 (see tools/props.py)."""
 ENTRY = {'coq_dir': 'C17',
  'harness': 'c17',
- 'cases': {'quick': 400, 'thorough': 20000},
+ 'cases': {'quick': 400, 'thorough': 100000},
  'consts': ['DEFAULT_MAX_RECORDS',
             'DEFAULT_MAX_RECORD_SIZE_BYTES',
             'DEFAULT_MAX_PROVIDER_KEYS',
